@@ -84,6 +84,9 @@ pub fn budget(prop: &str, tier: &str) -> u64 {
         "C10" => 160_000,
         "C11" => 2_400,
         "C14" => 160_000,
+        "C17" => 100_000,
+        "C18" => 100_000,
+        "C19" => 120_000,
         "C20" => 120_000,
         _ => 40_000,
     };
